@@ -38,3 +38,9 @@ CLAIMS["C06"] = dict(
     note="Trusted: SSA dominance/path queries; roaring.Bitmap And/IsEmpty/Contains semantics. The allow-list scenario is analysed under the assumption 'a non-empty allow-list was supplied'.",
     technique="static analysis: guard-dominates-effect path queries over SSA (must-pass-through with branch polarity)",
 )
+CLAIMS["C08"] = dict(
+    ref="DESIGN.md §4 C08",
+    text="Decides that a filter's answer cannot depend on which code path built the secondary indexes or on earlier queries: the live and the restore/compress indexers index the same dynamic types and every indexed type has a removal arm (SIB-1); the parser's operator set equals the evaluator's arms (TBL-ops); != complements against the live-id set whose construction skips Deleted nodes, and the planner splits OR outside / AND inside (GRD-live); query-path code mutates only bitmaps it owns and never returns a stored bitmap (GRD-alias, interprocedural ownership); the unchanged-value shortcut is type-sensitive (SIB-same). The set arithmetic of each arm is NOT decided.",
+    note="Trusted: go/types type-switch arms; ownership analysis treats roaring.New/Clone/And/Or results as fresh and anything loaded from a map or field as stored.",
+    technique="static analysis: sibling type-switch agreement, constant-table agreement, interprocedural ownership (freshness) of bitmaps over SSA",
+)
